@@ -252,7 +252,16 @@ func verifHook(point string, t *Tunnel, args ...interface{}) {
 			if t.rwc != nil {
 				verifState.byConn[interface{}(t.rwc)] = t
 			}
+		case "proc.recv":
+			// the packet loop is the goroutine this runs on: the user the tunnel acts for at this packet
+			if t.User != nil {
+				ev["user"] = t.User.UserName()
+			}
+		case "reg.end":
+			// called with connectionsMu held, after the change: the size of the registry
+			ev["nreg"] = len(Connections)
 		case "unreg.end":
+			ev["nreg"] = len(Connections)
 			for k, v := range verifState.byConn {
 				if v == t {
 					delete(verifState.byConn, k)
